@@ -126,7 +126,113 @@ func snapshot(dir string, originals map[string]string) []interface{} {
 	return out
 }
 
+// execUploadSeq: several operations on ONE handle (Copy to a, Move to b, Remove ...), all directories snapshotted
+// after every step.  No faults, plain names: what matters is what the handle remembers from the previous step.
+func execUploadSeq(vec J, out *Writer) {
+	kind := vec["kind"].(string)
+	n := I(vec["n"])
+	root, err := os.MkdirTemp("", "verif-upseq-")
+	if err != nil {
+		die("mkdtemp: %v", err)
+	}
+	defer os.RemoveAll(root)
+	dirs := map[string]string{"src": filepath.Join(root, "src"), "a": filepath.Join(root, "a"), "b": filepath.Join(root, "b"), "out": filepath.Join(root, "outside")}
+	for _, d := range dirs {
+		os.MkdirAll(d, 0755)
+	}
+	originals := map[string]string{}
+	write := func(path, key string) {
+		c := contentOf(key)
+		originals[string(c)] = key
+		os.WriteFile(path, c, 0644)
+	}
+	write(filepath.Join(dirs["out"], "sentinel"), "sentinel")
+	listed := []string{}
+	bases := []interface{}{}
+	for i := 0; i < n; i++ {
+		base := fmt.Sprintf("pkg_1.0.f%d.tar.gz", i+1)
+		write(filepath.Join(dirs["src"], base), fmt.Sprintf("f%d", i+1))
+		listed = append(listed, base)
+		bases = append(bases, base)
+	}
+	var text bytes.Buffer
+	var ctlName string
+	lines := func(extra string) string {
+		var sb strings.Builder
+		for _, l := range listed {
+			c, _ := os.ReadFile(filepath.Join(dirs["src"], l))
+			sb.WriteString(fmt.Sprintf("\n %x %d %s%s", md5.Sum(c), len(c), extra, l))
+		}
+		return sb.String()
+	}
+	if kind == "dsc" {
+		ctlName = "pkg_1.0.dsc"
+		fmt.Fprintf(&text, "Format: 3.0 (quilt)\nSource: pkg\nBinary: pkg\nArchitecture: any\nVersion: 1.0\nMaintainer: A B <a@b.org>\nFiles:%s\n", lines(""))
+	} else {
+		ctlName = "pkg_1.0_amd64.changes"
+		fmt.Fprintf(&text, "Format: 1.8\nSource: pkg\nBinary: pkg\nArchitecture: source\nVersion: 1.0\nDistribution: unstable\nUrgency: low\nMaintainer: A B <a@b.org>\nChanged-By: A B <a@b.org>\nDescription:\n pkg - x\nChanges:\n pkg (1.0) unstable; urgency=low\n .\n   * x\nFiles:%s\n", lines("utils optional "))
+	}
+	ctlPath := filepath.Join(dirs["src"], ctlName)
+	originals[text.String()] = "ctl"
+	os.WriteFile(ctlPath, text.Bytes(), 0644)
+	type handle interface {
+		Copy(string) error
+		Move(string) error
+		Remove() error
+	}
+	var h handle
+	var filename *string
+	if kind == "dsc" {
+		d, err := control.ParseDscFile(ctlPath)
+		if err != nil {
+			die("ParseDscFile: %v", err)
+		}
+		h, filename = d, &d.Filename
+	} else {
+		c, err := control.ParseChangesFile(ctlPath)
+		if err != nil {
+			die("ParseChangesFile: %v", err)
+		}
+		h, filename = c, &c.Filename
+	}
+	steps := []interface{}{}
+	for _, oj := range L(vec["ops"]) {
+		o := M(oj)
+		var operr error
+		panicked := false
+		func() {
+			defer func() {
+				if r := recover(); r != nil {
+					panicked = true
+				}
+			}()
+			switch o["op"].(string) {
+			case "copy":
+				operr = h.Copy(dirs[o["to"].(string)])
+			case "move":
+				operr = h.Move(dirs[o["to"].(string)])
+			case "remove":
+				operr = h.Remove()
+			}
+		}()
+		where := "other"
+		for label, d := range dirs {
+			if filepath.Clean(*filename) == filepath.Join(d, ctlName) {
+				where = label
+			}
+		}
+		steps = append(steps, J{"err": operr != nil, "panic": panicked, "handle": where,
+			"src": snapshot(dirs["src"], originals), "a": snapshot(dirs["a"], originals), "b": snapshot(dirs["b"], originals),
+			"out": snapshot(dirs["out"], originals)})
+	}
+	out.Put(J{"ev": "upseq", "in": vec, "ctl": ctlName, "bases": bases, "steps": steps})
+}
+
 func execUpload(vec J, out *Writer) {
+	if vec["k"].(string) == "upseq" {
+		execUploadSeq(vec, out)
+		return
+	}
 	if vec["k"].(string) != "up" {
 		die("upload: unknown vector kind %v", vec["k"])
 	}
